@@ -10,7 +10,7 @@
    repairs.  Recursion is on explicit fuel in the shape of the Go recursion.  No proofs here. *)
 From Coq Require Import List NArith ZArith Bool.
 From Coq Require Import Strings.Byte.
-From Falco Require Import Base.Res Base.Bytes Model.StoreSyntax.
+From Falco Require Import Base.Res Base.Bytes Model.HdrField Model.StoreSyntax.
 Import ListNotations.
 
 Section Sem.
@@ -27,6 +27,7 @@ Definition eval_var (x : name) (σ : state) : res (nat * state) :=
   | NLocal k => match lookup k (locals σ) with Some l => OK (l, σ) | None => Err end
   | NGlobal k => match lookup k (globals σ) with Some l => OK (l, σ) | None => Err end
   | NHeader o h => OK (alloc (header_val σ o h) σ)
+  | NField o h k => OK (alloc (field_val σ o h k) σ)
   | NGroup j => match nth_error (groups σ) j with
                 | Some l => OK (l, σ)
                 | None => OK (alloc (VStr [] true false) σ)
@@ -130,6 +131,22 @@ Definition store_header (o h : N) (v : val) (σ : state) : state :=
   | _ => set_hdrs (hset (o, h) (cut_nl (render Os v)) (hdrs σ)) σ
   end.
 
+(* setRequestHeaderValue / setResponseHeaderValue with a sub-field key: the header becomes
+   setField(<current value>, key, val) and is marked assigned *)
+Definition field_operand (v : val) : HdrField.val :=
+  match v with
+  | StoreSyntax.VStr _ true _ => VNotSet
+  | _ => HdrField.VStr (render Os v)
+  end.
+Definition store_field (o h k : N) (v : val) (σ : state) : state :=
+  set_hdrs (hset (o, h) (set_field (hdr_text σ o h) (key_text k) (field_operand v)) (hdrs σ)) σ.
+(* unsetRequestHeaderValue with a sub-field key *)
+Definition unset_field_of (o h k : N) (σ : state) : state :=
+  match unset_field (hdr_text σ o h) (key_text k) with
+  | [] => set_hdrs (hdel (o, h) (hdrs σ)) σ
+  | t => set_hdrs (hset (o, h) t (hdrs σ)) σ
+  end.
+
 Fixpoint run_block (step : stmt -> state -> res (outcome * state)) (ss : list stmt) (σ : state)
   : res (outcome * state) :=
   match ss with
@@ -154,6 +171,60 @@ Fixpoint run_elifs (ev : expr -> state -> res (nat * state))
       | Some false => run_elifs ev rb rest el σ1
       end
   end.
+
+(* ---- switch: ProcessSwitchStatement / ProcessCaseStatement *)
+Definition scase := (ctest * list stmt * bool)%type.
+Definition is_dflt (d : option nat) (i : nat) : bool :=
+  match d with Some n => Nat.eqb n i | None => false end.
+
+(* the test of a non-default case against the control string *)
+Definition case_test (t : ctest) (ctl : str) (σ : state) : res (bool * state) :=
+  match t with
+  | CDefault => OK (true, σ)
+  | CStr s =>
+      let (lr, σ1) := alloc (VStr s false true) σ in
+      do r <- binop_val Os BEq (VStr ctl false false) (VStr s false true);
+      match r with VBool b _ => OK (b, σ1) | _ => Crash end      (* Unwrap[*Boolean](match).Value *)
+  | CMatch p =>
+      match re_match Os p ctl with
+      | Some caps => OK (true, set_caps caps σ)
+      | None => OK (false, σ)
+      end
+  end.
+
+(* run the body of the first case; while it ends normally and says fallthrough, go on with the next *)
+Fixpoint sw_from (rb : list stmt -> state -> res (outcome * state)) (cs : list scase) (σ : state)
+  : res (outcome * state) :=
+  match cs with
+  | [] => Err                                   (* "Fallthrough not allowed in final case" *)
+  | (_, body, ft) :: rest =>
+      do (o, σ1) <- rb body σ;
+      match o with
+      | ONorm => if ft then sw_from rb rest σ1 else OK (ONorm, σ1)
+      | _ => OK (o, σ1)
+      end
+  end.
+Fixpoint sw_try (rb : list stmt -> state -> res (outcome * state)) (ctl : str) (d : option nat)
+                (i : nat) (cs : list scase) (σ : state) : res (option outcome * state) :=
+  match cs with
+  | [] => OK (None, σ)
+  | (t, body, ft) :: rest =>
+      if is_dflt d i then sw_try rb ctl d (S i) rest σ
+      else
+        do (m, σ1) <- case_test t ctl σ;
+        if m then do (o, σ2) <- sw_from rb ((t, body, ft) :: rest) σ1; OK (Some o, σ2)
+        else sw_try rb ctl d (S i) rest σ1
+  end.
+Fixpoint sw_nth (rb : list stmt -> state -> res (outcome * state)) (n : nat) (cs : list scase) (σ : state)
+  : res (outcome * state) :=
+  match cs, n with
+  | [], _ => Err
+  | _ :: _, O => sw_from rb cs σ
+  | _ :: rest, S n' => sw_nth rb n' rest σ
+  end.
+
+(* what a call hands back to its caller *)
+Inductive cres := CNone | CVal (l : nat) | CState (st : N).
 
 Definition max_call_stack : nat := 100.
 
@@ -220,7 +291,7 @@ Fixpoint eval (n : nat) (m : mode) (e : expr) (σ : state) {struct n} : res (nat
             match s_ret sb with
             | Some _ =>
                 do (r, σ2) <- call n' sb ls σ1;
-                match r with Some l => OK (l, σ2) | None => Err end
+                match r with CVal l => OK (l, σ2) | _ => Err end   (* a state / no value: value.Null *)
             | None => Err
             end
         | None => Err
@@ -277,11 +348,22 @@ with exec (n : nat) (fn : bool) (s : stmt) (σ : state) {struct n} : res (outcom
                        end;
               OK (ONorm, store_header o h hv σ1)
             else Err
+        | NField o h k =>
+            if valid_stmt_expr TStr e then
+              do (r, σ1) <- eval n' lvar_mode e σ;          (* isHeaderFieldIdent: LocalVariable mode *)
+              do rv <- load σ1 r;
+              do hv <- match op with
+                       | AEq => OK rv
+                       | _ => do nv <- assign_val Os op (field_val σ1 o h k) rv; OK (unset_notset nv)
+                       end;
+              OK (ONorm, store_field o h k hv σ1)
+            else Err
         | NGroup _ => Err
         end
     | SUnset x =>
         match x with
         | NHeader o h => OK (ONorm, set_hdrs (hdel (o, h) (hdrs σ)) σ)
+        | NField o h k => OK (ONorm, unset_field_of o h k σ)
         | _ => Err
         end
     | SLog e =>
@@ -300,7 +382,9 @@ with exec (n : nat) (fn : bool) (s : stmt) (σ : state) {struct n} : res (outcom
     | SCall f args =>
         do (ls, σ1) <- eval_list (eval n' lvar_mode) args σ;
         match find_sub f P with
-        | Some sb => do (_, σ2) <- call n' sb ls σ1; OK (ONorm, σ2)
+        | Some sb =>
+            do (r, σ2) <- call n' sb ls σ1;
+            match r with CState st => OK (OState st, σ2) | _ => OK (ONorm, σ2) end
         | None => Err
         end
     | SReturn eo =>
@@ -312,13 +396,32 @@ with exec (n : nat) (fn : bool) (s : stmt) (σ : state) {struct n} : res (outcom
         else
           match eo with
           | None => OK (OBare, σ)
-          | Some _ => Err        (* return(<state>) is outside this model *)
+          | Some _ => Err        (* `return e;` in a procedure is written SReturnState *)
           end
+    | SReturnState st =>
+        if fn then Err           (* an identifier evaluated as an expression: outside this model *)
+        else OK (OState st, σ)
+    | SNop => OK (ONorm, σ)
+    | SSwitch c cases d =>
+        do (lc, σ1) <- eval n' dflt_mode c σ;
+        do vc <- load σ1 lc;
+        (* control := &value.String{Value: expr.String()} *)
+        let ctl := render Os vc in
+        let (_, σ2) := alloc (VStr ctl false false) σ1 in
+        do (r, σ3) <- sw_try (run_block (exec n' fn)) ctl d 0 cases σ2;
+        do (o, σ4) <- match r with
+                      | Some o => OK (o, σ3)
+                      | None => match d with
+                                | Some k => sw_nth (run_block (exec n' fn)) k cases σ3
+                                | None => OK (ONorm, σ3)
+                                end
+                      end;
+        OK (demote o, σ4)
     end
   end
 
 (* ProcessSubroutine / ProcessFunctionSubroutine: new frame, parameters, body, restore *)
-with call (n : nat) (sb : sub) (args : list nat) (σ : state) {struct n} : res (option nat * state) :=
+with call (n : nat) (sb : sub) (args : list nat) (σ : state) {struct n} : res (cres * state) :=
   match n with
   | O => OutOfFuel
   | S n' =>
@@ -332,10 +435,11 @@ with call (n : nat) (sb : sub) (args : list nat) (σ : state) {struct n} : res (
     do (o, σ2) <- run_block (exec n' isfn) (s_body sb) σ1;
     let σ3 := set_depth d (set_groups saved_groups (set_locals saved_locals σ2)) in
     match s_ret sb, o with
-    | None, (ONorm | OBare) => OK (None, σ3)
+    | _, OState st => OK (CState st, σ3)       (* travels on through ProcessCallStatement *)
+    | None, (ONorm | OBare) => OK (CNone, σ3)
     | None, OVal _ _ => Err
-    | Some rt, OVal l true => do (l', σ4) <- convert rt l σ3; OK (Some l', σ4)
-    | Some rt, OVal l false => OK (Some l, σ3)
+    | Some rt, OVal l true => do (l', σ4) <- convert rt l σ3; OK (CVal l', σ4)
+    | Some rt, OVal l false => OK (CVal l, σ3)
     | Some _, _ => Err                (* "did not return any values" *)
     end
   end.
